@@ -22,7 +22,7 @@ NCPU = os.cpu_count() or 4
 
 # property -> configuration.  parts: list of (flavour, fraction of the run budget re-run in that flavour)
 CONFIG = {
-    "C01": dict(parts=[("plain", 1.0), ("asan", 0.15)], quick=2400, thorough=40000, chunk=40, timeout=120,
+    "C01": dict(parts=[("plain", 1.0), ("asan", 0.15), ("vg", 0.02)], quick=2400, thorough=40000, chunk=40, timeout=120,
                 rule="one run = a seeded history of 15-200 operations (create/destroy/2D+3D batched and single-entry queries/size/distance, "
                      "failing requests, allocation faults) over 1-4 live worlds built from corpus and generated files; every response is "
                      "compared bit for bit with stand-alone single-property answers of fresh worlds. Non-trivial = at least one oracle "
@@ -32,7 +32,7 @@ CONFIG = {
                      "area features with depth surfaces), one with the shipped shortcuts, one with a seeded subset of shortcut sites S1-S8 "
                      "disabled, asked the same placed/adaptive/uniform points. Non-trivial = at least one point was inside a feature "
                      "according to the un-culled world; distinct = distinct event-log hash."),
-    "C12": dict(parts=[("asan", 1.0)], quick=3000, thorough=60000, chunk=40, timeout=120,
+    "C12": dict(parts=[("asan", 1.0), ("vg", 0.02)], quick=2400, thorough=60000, chunk=40, timeout=120,
                 rule="one run = construct a world from a corpus/generated document after 0-3 structural mutations and under a seeded "
                      "file-layer fault plan (truncation, corruption, short reads, EINTR, EIO, open failure, change between opens) or an "
                      "allocation fault; then probe queries; then construction from the intact file. Non-trivial = a mutation or a fault "
@@ -91,6 +91,14 @@ def match_known(known, prop, cls, site):
 # ------------------------------------------------------------------ running one scenario in a fresh process
 def crash_site(stderr):
     """first frame of a sanitizer stack that lies in the repository's own code"""
+    # valgrind memcheck: "==pid== <what>" followed by "==pid==    at 0x...: function (file.cc:line)"
+    vg = re.search(r"==\d+== (Conditional jump or move depends on uninitialised value|Use of uninitialised value|Invalid (read|write)|Syscall param .* uninitialised)", stderr)
+    if vg:
+        for m in re.finditer(r"==\d+==\s+(?:at|by) 0x[0-9A-F]+: (.+?) \((\S+?):(\d+)\)", stderr[vg.start():]):
+            fn, fname = m.group(1), m.group(2)
+            if fn.startswith(("WorldBuilder::", "gwb_", "create_world", "properties_", "temperature_", "composition_", "wrapper_cpp::")):
+                return "valgrind:%s@%s" % (re.sub(r"\(.*", "", fn), fname)
+        return "valgrind:" + vg.group(1).split()[0]
     k = re.search(r"ERROR: \w+Sanitizer|runtime error:", stderr)
     if k:
         stderr = stderr[k.start():]
@@ -152,7 +160,7 @@ def run_exec(binary, scenario, timeout=120, verbose=False, workdir=None):
 
 def summarise_stderr(err):
     for line in err.splitlines():
-        if "ERROR: " in line or "runtime error" in line or "WARNING: ThreadSanitizer" in line:
+        if "ERROR: " in line or "runtime error" in line or "WARNING: ThreadSanitizer" in line or "uninitialised" in line or "== Invalid " in line:
             return line.strip()[:300]
     tail = [l for l in err.strip().splitlines() if l.strip()]
     return (tail[-1][:300] if tail else "")
